@@ -127,6 +127,21 @@ def run(tier, PROP="C01"):
                     broken.append({"kind": "correspondence", "msg": f"e2e: `{elines[i]}` real `{ereal[i]}` model `{emodel[i]}`"})
             chk.coverage["e2e_cases"] = len(ecases)
             chk.coverage["emitted_statements_sample"] = dict(list(opmods.emitted_statements(oc, nops).items())[:8])
+            # the same operands on the output written with -p (pretty printing has its own copies of several emitter format strings)
+            try:
+                pd = os.path.join(d, "ops_pretty")
+                os.makedirs(pd, exist_ok=True)
+                pexe, _ = opmods.build_harness(repo, pd, nops, w2c2_opts=("-p",))
+                preal = ro.run_lines(pexe, elines)
+                for i, (op, vals) in enumerate(ecases):
+                    chk.count_case(("e2e-p", op[0], vals), True, None)
+                    if espec and not ro.same_result(preal[i], espec[i]):
+                        chk.violation(f"{op[1]}-e2e-pretty-real-vs-spec",
+                                      f"{op[1]}: output of the real w2c2 -p compiled by gcc returns `{preal[i]}`, the specification requires `{espec[i]}`",
+                                      {"line": elines[i], "real": preal[i], "spec": espec[i], "kind": "e2e", "w2c2_opts": ["-p"]}, True)
+                chk.coverage["e2e_cases_pretty"] = len(ecases)
+            except Exception as e:
+                broken.append({"kind": "e2e-build", "msg": "-p: " + str(e)[-1200:]})
         # operands given as immediates (`t.const` of every LEB128 length, minimal and redundantly padded; float immediates): what an
         # instruction computes is only right if the constant reached it — reader -> literal -> compiler (the same pipeline C07 ties)
         try:
@@ -195,7 +210,7 @@ def replay(path, PROP="C01"):
             print(f"replay {t}.const {b:#x} (pad {pad}, {r['via']}): compiled output gives {v:#x}")
             return 0 if v == b else 1
         if r.get("kind") == "e2e":
-            exe, _ = opmods.build_harness(repo, d, [o for o in opmods.numeric_ops() if cfg["is_mine"](o)])
+            exe, _ = opmods.build_harness(repo, d, [o for o in opmods.numeric_ops() if cfg["is_mine"](o)], w2c2_opts=tuple(r.get("w2c2_opts", ())))
         else:
             exe = ro.build(repo, d, cfg["macro_ops"]())
         out = ro.run_lines(exe, [r["line"]])[0]
